@@ -339,7 +339,7 @@ func c13RaceBatch(exe, tmp string, seeds []uint64) []string {
 		if hi > len(seeds) {
 			hi = len(seeds)
 		}
-		if bad >= 3 {
+		if bad >= 2 {
 			for i := lo; i < hi; i++ {
 				res[i] = "skipped"
 			}
